@@ -361,10 +361,10 @@ def gl3(prog):
                 sites += 1
                 if strip(call.args[pe - 1]) != elemp or strip(call.args[ph - 1]) != hashp:
                     errs.append("line %d: %s is not given the requested element and its hash" % (call.line, hname))
-    if sites < 2:
-        errs.append("expected two insertion sites, found %d" % sites)
-    out.append(inst("GL", "%s:GL3:insert-entry" % fn.npath, VIOLATION if errs else OK, fn, None,
-                    "; ".join(errs) if errs else "new entries = (alloc(elem), hash, psl)"))
+    if sites < 1:
+        errs.append("?no insertion site found")     # the two cases (free slot / eviction) may share one site
+    out.append(inst("GL", "%s:GL3:insert-entry" % fn.npath, verdict_of(errs), fn, None,
+                    errtext(errs) if errs else "new entries = (alloc(elem), hash, psl)"))
     return out
 
 
